@@ -218,7 +218,16 @@ class Verdict:
         elem = ("param", 2)
         verdicts = [strong_vs_value(r, elem) for r in cl["returns"]]
         if not any(v is not None for v in verdicts):
-            return None  # not a comparison of strong counts: not the orphan test
+            # the comparison may sit in a branch condition of the closure (`a > b && other`, if/else ...)
+            def reads_strong(e):
+                return mentions(e, lambda x: counter_read(x) is not None and counter_read(x)[2] == "strong")
+            branchy = any(reads_strong(c) for pcs, r in cl["paths"] for c, _t in pcs) or any(reads_strong(r) for r in cl["returns"])
+            if not branchy:
+                return None  # no strong count involved: not the orphan test
+            self.verdict_sites.add(b)
+            eng.obl("GATE-6", "verdict", b)
+            eng.violate("GATE-6", "verdict-predicate-shape", "the orphan-test predicate (%s) is not the single comparison `strong > traced count`: extra conditions or branches change which groups are judged orphaned" % cl["where"], b, st)
+            return add(st, ("verdict_checked", M))
         self.verdict_sites.add(b)
         eng.obl("GATE-6", "verdict", b)
         where = cl["where"]
